@@ -23,15 +23,17 @@ type Call struct {
 }
 
 type Conn struct {
-	in      []byte
-	end     error
-	closed  bool
-	rdl     time.Time
-	wdl     time.Time
-	Out     []byte
-	Calls   []Call
-	seq     int
-	Blocked bool // a Write never completes unless the write deadline passes (a stalled peer on a synchronous transport)
+	in     []byte
+	end    error
+	closed bool
+	// readShut / writeShut: one direction was shut down (TCPLike.CloseRead / CloseWrite)
+	readShut, writeShut bool
+	rdl                 time.Time
+	wdl                 time.Time
+	Out                 []byte
+	Calls               []Call
+	seq                 int
+	Blocked             bool // a Write never completes unless the write deadline passes (a stalled peer on a synchronous transport)
 	// YieldAfterWrite adds a scheduling point between the delivery of the bytes to the peer and the return of Write
 	// (the peer may react before the writer runs on)
 	YieldAfterWrite bool
@@ -53,6 +55,24 @@ func (c *Conn) dlErr() error {
 
 func New() *Conn { return &Conn{} }
 
+// TCPLike is a Conn that also offers what *net.TCPConn offers beyond net.Conn: CloseRead and CloseWrite (code that
+// type-asserts these optional methods takes another path over such a transport than over a plain net.Conn).
+type TCPLike struct{ *Conn }
+
+// CloseRead shuts the read side down: pending and later Reads end with io.EOF.
+func (c TCPLike) CloseRead() error {
+	c.log("CloseRead", time.Time{})
+	c.readShut = true
+	return nil
+}
+
+// CloseWrite shuts the write side down: later Writes fail; the read side is unaffected.
+func (c TCPLike) CloseWrite() error {
+	c.log("CloseWrite", time.Time{})
+	c.writeShut = true
+	return nil
+}
+
 func (c *Conn) log(kind string, t time.Time) {
 	c.seq++
 	c.Calls = append(c.Calls, Call{kind, t, vs.Elapsed(), c.seq})
@@ -68,10 +88,12 @@ func (c *Conn) End(err error) { c.end = err }
 func passed(t time.Time) bool { return !t.IsZero() && !vs.Now().Before(t) }
 
 func (c *Conn) Read(p []byte) (int, error) {
-	vs.WaitUntil("conn.Read", func() bool { return len(c.in) > 0 || c.end != nil || c.closed || passed(c.rdl) })
+	vs.WaitUntil("conn.Read", func() bool { return len(c.in) > 0 || c.end != nil || c.closed || c.readShut || passed(c.rdl) })
 	switch {
 	case c.closed:
 		return 0, net.ErrClosed
+	case c.readShut:
+		return 0, io.EOF
 	case passed(c.rdl):
 		return 0, os.ErrDeadlineExceeded
 	case len(c.in) > 0:
@@ -94,6 +116,8 @@ func (c *Conn) Write(p []byte) (int, error) {
 	switch {
 	case c.closed:
 		return 0, net.ErrClosed
+	case c.writeShut:
+		return 0, errors.New("vnet: write after CloseWrite")
 	case passed(c.wdl):
 		return 0, os.ErrDeadlineExceeded
 	}
